@@ -821,6 +821,12 @@ func (join *invertibleTypeJoin) invertJoinDirectionWithIndex(
 	childScan.ordering = ordering
 	childScan.initFetcher(immutable.Option[string]{})
 
+	// once the child side drives the join, parent documents are fetched one by one by their docID;
+	// an index picked earlier for the parent's own filter would ignore that docID prefix.
+	if parentScan := getNode[*scanNode](join.parentSide.plan); parentScan != nil && parentScan.index.HasValue() {
+		parentScan.index = immutable.None[client.IndexDescription]()
+	}
+
 	join.childSide.isFirst = join.parentSide.isFirst
 	join.parentSide.isFirst = !join.parentSide.isFirst
 
